@@ -6,6 +6,7 @@ import (
 	"encoding/hex"
 	"fmt"
 	"google.golang.org/protobuf/proto"
+	"runtime"
 	"sort"
 	"testing"
 	"time"
@@ -362,10 +363,14 @@ func TestC14(t *testing.T) {
 			}
 			pol := fieldsToPolicy(&gen.PolicyFields{AnyMrTd: list}, false, false)
 			gen.Eval()
+			runtime.GC()
+			cpu0 := gen.CPUSeconds()
 			v, hung := gen.CallWatch(20*time.Second, func() error { _, err := validate.PolicyToOptions(pol); return err })
+			cpu := gen.CPUSeconds() - cpu0
 			rp := map[string]any{"kind": "c14-many-entries", "entries": c.n, "size": c.size}
-			if hung || v.Panicked() {
-				gen.Fail(t, gen.Violation{Key: "no-answer:many-wrongly-sized-entries", Oracle: "conversion fails whenever a byte-string expectation is non-empty and of the wrong length", Detail: fmt.Sprintf("any_mr_td with %d entries of %d bytes: no answer within 20 s %s", c.n, c.size, v.Panic), Replay: rp})
+			// (reading the message takes microseconds; the bound is on processor time, which a busy machine does not stretch)
+			if hung || v.Panicked() || cpu > 1 {
+				gen.Fail(t, gen.Violation{Key: "no-answer:many-wrongly-sized-entries", Oracle: "conversion fails whenever a byte-string expectation is non-empty and of the wrong length", Detail: fmt.Sprintf("any_mr_td with %d entries of %d bytes: no answer within 20 s / %.1f s of processor time where reading the message takes microseconds %s", c.n, c.size, cpu, v.Panic), Replay: rp})
 				return
 			}
 			if v.Accepted() {
